@@ -89,6 +89,6 @@ def evaluate(case):
         if sp['members'] and not ix.finite_members(sp['id']):
             res.label('outside:no-non-forever-member')
     res.sample = dict(outcome=trace.outcome,
-                      stops=[dict(sched=sp['id'], tau=an['tau'], end=an['rex']['t'])
+                      stops=[dict(sched=sp['id'], tau=an['tau'], end=an['rex']['t'] if an['rex'] else None)
                              for sp, an in hits if any(m['forever'] for m in sp['members'])])
     return res
